@@ -147,6 +147,10 @@ Definition check_glue (c : sexp) : sexp :=
           | Some robs =>
               let bad := match robs with Some r => negb (data_or_errors r) | None => false end in
               if bad then v_oracle_fail "nodata-noerrors" []
+              else if match field1 "expect" l with Some x => is_sym "refused" x | None => false end
+                      && match dec_count "parse" st with Some (Some (Returned O)) => true | _ => false end
+              then (* generator intent: nested far beyond the parser's recursion limit *)
+                v_oracle_fail "too-deep-document-not-refused" []
               else judge_glue stream api st robs
           end
       | _, _, _, _ => v_bad "fields"
